@@ -95,6 +95,8 @@ class Var(Aggregation):
         self.ddof = ddof
 
     def _compute_result(self, x, x2, n):
+        if isinstance(n, Number) and n - self.ddof <= 0:
+            return np.nan
         result = (x2 / n) - (x / n) ** 2
         if self.ddof != 0:
             result = result * n / (n - self.ddof)
